@@ -36,6 +36,16 @@ Theorem C09_inline_sound : forall N P d recursive wh f fn fn' f',
 Proof. exact inline_sound. Qed.
 Print Assumptions C09_inline_sound.
 
+(* ... and with any of the proposed repairs (fixes/C09-*.diff) in force: the `as x` targets renamed,
+   header arguments bound under REAL, any set of calls refused because of their position *)
+Theorem C09_inline_x_sound : forall N P fx d recursive wh f fn fn' f',
+  prog_ok P = true -> lookup_fn P f = Some fn -> lookup_fn P f' = None ->
+  inline_x fx P d recursive wh f fn = Some fn' ->
+  forall n args c v, run N P n f args c = ROk v ->
+  exists m, run N (P ++ [(f', fn')]) m f' args c = ROk v.
+Proof. exact inline_x_sound. Qed.
+Print Assumptions C09_inline_x_sound.
+
 (* the same at every call (same value AND same store: the callee's mutations of shared lists
    are reproduced), which is what makes the passes compose: all sites, recursive, one level *)
 Theorem C09_inline_call_sim : forall N P, prog_ok P = true -> forall d recursive wh fn fn',
@@ -44,8 +54,8 @@ Theorem C09_inline_call_sim : forall N P, prog_ok P = true -> forall d recursive
 Proof. exact inline_call_sim. Qed.
 Print Assumptions C09_inline_call_sim.
 
-Theorem C09_inline_full_sound : forall N P, prog_ok P = true -> forall d fn fn',
-  fn_ok fn = true -> inline_full P d fn = Some fn' ->
+Theorem C09_inline_full_sound : forall N P, prog_ok P = true -> forall fx d fname fn fn',
+  fn_ok fn = true -> inline_full fx P d fname fn = Some fn' ->
   call_sim N P fn fn' /\ flat_map with_targets (f_body fn') = [].
 Proof. exact inline_full_sound. Qed.
 Print Assumptions C09_inline_full_sound.
@@ -116,6 +126,13 @@ Theorem C09_lift_ctx_sound : forall N P f fn fn' f',
   exists m, run N (P ++ [(f', fn')]) m f' args c = ROk v.
 Proof. exact lift_ctx_sound. Qed.
 Print Assumptions C09_lift_ctx_sound.
+
+Theorem C09_lift_ctx_x_sound : forall N P fx f fn fn' f',
+  lookup_fn P f = Some fn -> lookup_fn P f' = None -> lift_ctx_lit_x N fx fn = Some fn' ->
+  forall n args c v, run N P n f args c = ROk v ->
+  exists m, run N (P ++ [(f', fn')]) m f' args c = ROk v.
+Proof. exact lift_ctx_x_sound. Qed.
+Print Assumptions C09_lift_ctx_x_sound.
 
 Theorem C09_lift_computed_refuted : exists P f fn fn' args v v',
   lookup_fn P f = Some fn /\ lift_ctx prov_numops fn = Some fn' /\
